@@ -1651,6 +1651,11 @@ numpy.ufunc.reduceat.html
             inp.asarray() if isinstance(inp, type(self)) else inp
             for inp in inputs)
 
+        # A `where` mask given as tensor takes part in Numpy's dispatch, too,
+        # and must be unwrapped (otherwise we end up here again, forever)
+        if isinstance(kwargs.get('where', None), type(self)):
+            kwargs['where'] = kwargs['where'].asarray()
+
         # --- Get some parameters for later --- #
 
         # No conversion of `out` to the `dtype` keyword: Numpy computes in
